@@ -279,4 +279,36 @@ func runC11(c *Ctx) {
 		n := len(findInstrs(fn, CallTo(`^\(\*math/big\.Int\)\.Cmp$`, `chainId`)))
 		c.Check("F", fnName(fn)+"/compares chain ids", n == 1, fn.Pos(), n, "two chain-id signers are equal only for the same chain id (sender cache key)")
 	}
+	// "nil" is decided on the whole block id: a vote for {zero hash, some parts header} must not canonicalise (and so
+	// sign and verify) like a nil vote
+	if fn := c.Fn("types", "BlockID", "IsZero"); fn != nil {
+		ok := false
+		for _, in := range findInstrs(fn, AnyReturn()) {
+			cases := phiCases(in.(*ssa.Return).Results[0])
+			sawParts, sawFalse := false, false
+			for _, pc := range cases {
+				v := pathOf(pc.Val)
+				if strings.Contains(v, "IsZero(") && strings.Contains(v, "PartsHeader") && hasCond(pc.Conds, `Hash\)=T$|\.Hash.*IsZero.*=T$`) {
+					sawParts = true
+				}
+				if v == "const:false" && hasCond(pc.Conds, `=F$`) {
+					sawFalse = true
+				}
+			}
+			ok = sawParts && sawFalse && len(cases) == 2
+		}
+		c.Check("F", fnName(fn)+"/a block id is nil only if both the hash and the parts header are zero", ok, fn.Pos(), 2, "")
+	}
+	if fn := c.Fn("types", "PartSetHeader", "IsZero"); fn != nil {
+		ok := false
+		for _, in := range findInstrs(fn, AnyReturn()) {
+			s := ""
+			for _, pc := range phiCases(in.(*ssa.Return).Results[0]) {
+				s += pathOf(pc.Val) + " [" + strings.Join(pc.Conds, ";") + "] "
+			}
+			ok = strings.Contains(s, ".Total == const:0") && strings.Contains(s, "IsZero(") && strings.Contains(s, "const:false")
+		}
+		c.Check("F", fnName(fn)+"/a parts header is zero only if both the total and the hash are zero", ok, fn.Pos(), 2, "")
+	}
+
 }
